@@ -7,7 +7,7 @@ from sa.spec import logical as spec
 from .common import true_facts, assigned_values, analysis, names_in, str_consts_compared
 
 PROP = "C20"
-TECHNIQUE = "exhaustiveness of the type-directed generator against the writers' table; interval containment of every random.randint with constant-folded bounds in the validator's interval and the logical reader's domain; CFG count rule; parse-before-generate with the threaded name table"
+TECHNIQUE = "exhaustiveness of the type-directed generator against the writers' table (tri-state over lookup tables); interval containment of every random.randint draw per path summary (base type and logical type from the path facts, constant-folded bounds incl. keyed tables) in the base interval and the logical reader's domain; CFG count rule; parse-before-generate with the threaded name table"
 LEVEL_TEXT = (
     "Static analysis of the data generator: gen_data has an arm for every kind the writers encode plus the by-name fallback through "
     "the name table the parse filled; every logical type whose reader restricts the stored domain is special-cased; each "
